@@ -19,7 +19,8 @@ static void f_unlock(void) { rt_assert(rdepth > 0, "read_unlock without read_loc
 static void f_sync(void) { rt_assert(rdepth == 0, "synchronize_rcu called inside a read-side critical section"); gp++; }
 static void f_noop(void) { }
 static int f_ongoing(void) { return rdepth > 0; }
-const struct rcu_flavor_struct FLV = { .read_lock = f_lock, .read_unlock = f_unlock, .read_ongoing = f_ongoing, .read_quiescent_state = f_noop,
+static void f_atfork(struct urcu_atfork *a) { (void)a; }
+const struct rcu_flavor_struct FLV = { .register_rculfhash_atfork = f_atfork, .unregister_rculfhash_atfork = f_atfork, .read_lock = f_lock, .read_unlock = f_unlock, .read_ongoing = f_ongoing, .read_quiescent_state = f_noop,
   .update_synchronize_rcu = f_sync, .thread_offline = f_noop, .thread_online = f_noop, .register_thread = f_noop, .unregister_thread = f_noop, .barrier = f_noop };
 
 /* ---- typed pools behind the custom allocator; the log records what is live and when it was freed */
@@ -33,8 +34,25 @@ const struct rcu_flavor_struct FLV = { .read_lock = f_lock, .read_unlock = f_unl
 union htobj { struct cds_lfht ht; char pad[sizeof(struct cds_lfht) + 64 * sizeof(void *)]; } HTOBJ;
 struct cds_lfht_node BT[NBT][BTSZ]; int bt_live[NBT]; unsigned long bt_n[NBT]; uint64_t bt_pub_gp[NBT];
 struct ht_items_count ITEMS[4]; int ht_live, items_live; int nbt;
+struct resize_work RWK0, RWK1, RWK2, RWK3; int rwk_live[4], nrwk;
+static inline struct resize_work *RWP(int i) { return i == 0 ? &RWK0 : i == 1 ? &RWK1 : i == 2 ? &RWK2 : &RWK3; }
+/* workqueue model (lazy resize, SCEN 4): queue_work defers the callback; the harness runs the pending work between operations
+ * (run_work) - the worker thread of src/workqueue.c is a different unit (C03/C04 territory) */
+static char WQOBJ;
+struct urcu_work *PW[4]; void (*PF[4])(struct urcu_work *); int npw, nrun;
+struct urcu_workqueue *my_wq_create(unsigned long flags, int cpu, void *priv, void (*a)(struct urcu_workqueue *, void *),
+    void (*b)(struct urcu_workqueue *, void *), void (*c)(struct urcu_workqueue *, void *), void (*d)(struct urcu_workqueue *, void *),
+    void (*e)(struct urcu_workqueue *, void *), void (*f)(struct urcu_workqueue *, void *), void (*g)(struct urcu_workqueue *, void *)) {
+  (void)flags; (void)cpu; (void)priv; (void)a; (void)b; (void)c; (void)d; (void)e; (void)f; (void)g; return (struct urcu_workqueue *)&WQOBJ; }
+void my_queue_work(struct urcu_workqueue *wq, struct urcu_work *work, void (*func)(struct urcu_work *)) {
+  rt_assert(wq == (struct urcu_workqueue *)&WQOBJ && npw < 4, "work queued on the table's workqueue; pending buffer large enough");
+  PW[npw] = work; PF[npw] = func; npw++; }
+static inline void run_work(void) { for (int k = 0; k < 4; k++) if (k >= nrun && k < npw) { PF[k](PW[k]); nrun = k + 1; } }
+void my_wq_flush(struct urcu_workqueue *wq) { (void)wq; run_work(); }
+void my_wq_destroy(struct urcu_workqueue *wq) { (void)wq; }
 static void *a_calloc(void *st, size_t n, size_t sz) {
   (void)st;
+  if (sz == sizeof(struct resize_work) && n == 1) { rt_assert(nrwk < 4, "resize work pool"); int k = nrwk++; rwk_live[k] = 1; return RWP(k); }
   if (sz == sizeof(struct cds_lfht_node)) {
     rt_assume(nbt < NBT);                 /* pool capacity is a bound of the obligation, not a property */
     rt_assert(n <= BTSZ, "bucket table no larger than the table bound allows");
@@ -51,6 +69,7 @@ static void a_free(void *st, void *p) {
   if (!p) return;                      /* free(NULL) is legal */
   if (p == (void *)&HTOBJ) { rt_assert(ht_live, "table freed once"); ht_live = 0; return; }
   if (p == (void *)ITEMS) { rt_assert(items_live, "items freed once"); items_live = 0; return; }
+  for (int k = 0; k < 4; k++) if (p == (void *)RWP(k)) { rt_assert(rwk_live[k], "resize work freed once"); rwk_live[k] = 0; return; }
   for (int k = 0; k < NBT; k++) if (p == (void *)BT[k]) {
     rt_assert(bt_live[k], "bucket table freed once"); bt_live[k] = 0;
     for (unsigned i = 0; i < BTSZ; i++) { BT[k][i].next = (struct cds_lfht_node *)0x5a5a0; BT[k][i].reverse_hash = 0x5a5a; }
@@ -179,6 +198,31 @@ void seq(void) {
   cds_lfht_resize(ht, n2);
   check_all();
 #endif
+}
+#endif
+#if SCEN == 4      /* C09(b): lazy resize driven by the node counter and by chain length (AUTO_RESIZE | ACCOUNTING) */
+#ifndef NADD
+#define NADD NN
+#endif
+#define BOUNDS() rt_assert(ht->resize_target >= 1 && ht->resize_target <= ht->max_nr_buckets && ht->size >= 1 && ht->size <= ht->max_nr_buckets, "lazy resize: target and size stay within [1, max_nr_buckets]")
+void seq(void) {
+  setup(INIT, MINB, MAXB, CDS_LFHT_AUTO_RESIZE | CDS_LFHT_ACCOUNTING);
+  for (int i = 0; i < NADD; i++) {
+    cds_lfht_add(ht, HK[UP(i)->key], &UP(i)->n); present[i] = 1;
+    BOUNDS();
+    rt_cover(npw > nrun, "an addition queued resize work");
+    run_work();
+    BOUNDS();
+  }
+  check_all();
+  rt_cover(ht->size == MAXB, "table grew to max_nr_buckets"); rt_cover(ht->size > INIT, "lazy resize grew the table");
+  for (int i = 0; i < NADD; i++) { rt_assert(cds_lfht_del(ht, &UP(i)->n) == 0, "del of a stored node succeeds"); present[i] = 0; BOUNDS(); run_work(); BOUNDS(); }
+  check_all();
+  rt_assert(cds_lfht_destroy(ht, 0) == 0, "destroy of an empty auto-resize table is accepted (deferred to the workqueue)");
+  run_work();
+  rt_assert(!ht_live && !items_live, "deferred destroy released the table object and the split counters");
+  for (int k = 0; k < NBT; k++) rt_assert(!bt_live[k], "deferred destroy released every bucket table");
+  for (int k = 0; k < 4; k++) rt_assert(!rwk_live[k], "every resize work item was freed by its callback");
 }
 #endif
 #if SCEN == 3      /* C08(b): parameter normalisation of cds_lfht_new for arbitrary arguments */
